@@ -1238,6 +1238,42 @@ def rule_cache_sync(c, R, main, updaters, imported):
         for ch in reach.chains(n):
             outer = ch[-1][1]
             guarded = any(a.get("type") == "TryStatement" and a.get("handler") is not None and any(x is outer for x in jsast.walk(a.get("block") or {})) for a in F.ancestors(outer))
+            if not guarded:
+                # ... or runs inside a callback handed to a local helper that calls it under try/catch
+                # (`runLoggingErrors(this, () => { .. })`)
+                pairs_ = []
+                for fnx in [a for a in F.ancestors(outer) if a.get("type") in ("ArrowFunctionExpression", "FunctionExpression")]:
+                    callp = F.parent(fnx)
+                    for _ in range(3):
+                        if callp is not None and callp.get("type") != "CallExpression":
+                            callp = F.parent(callp)
+                    pairs_.append((callp, fnx))
+                if outer.get("type") in ("ArrowFunctionExpression", "FunctionExpression"):
+                    callp = F.parent(outer)
+                    for _ in range(3):
+                        if callp is not None and callp.get("type") != "CallExpression":
+                            callp = F.parent(callp)
+                    pairs_.append((callp, outer))
+                if outer.get("type") == "CallExpression":
+                    # the site the chain ends at is the call of the helper itself: the update sits in one of its callback arguments
+                    for a_ in args(outer):
+                        a_ = JF.unparen(a_)
+                        if a_.get("type") in ("ArrowFunctionExpression", "FunctionExpression") and any(x is n for x in jsast.walk(a_)):
+                            pairs_.append((outer, a_))
+                for callp, fnx in pairs_:
+                    if callp is None or callp.get("type") != "CallExpression" or len(chain(callp)) != 1 or chain(callp)[0] not in F.decls:
+                        continue
+                    h_ = F.decls[chain(callp)[0]]
+                    idx_ = [i_ for i_, a_ in enumerate(args(callp)) if JF.unparen(a_) is fnx]
+                    ps_ = F.params(h_)
+                    if not idx_ or idx_[0] >= len(ps_):
+                        continue
+                    pn_ = ps_[idx_[0]]
+                    for tr in [x for x in jsast.walk(h_) if x.get("type") == "TryStatement" and x.get("handler") is not None]:
+                        if any(y.get("type") == "CallExpression" and chain(y) == [pn_] for y in jsast.walk(tr.get("block") or {})):
+                            # and nowhere outside a try
+                            outside = [y for y in jsast.walk(h_) if y.get("type") == "CallExpression" and chain(y) == [pn_] and not any(y is z for t2 in jsast.walk(h_) if t2.get("type") == "TryStatement" and t2.get("handler") is not None for z in jsast.walk(t2.get("block") or {}))]
+                            guarded = guarded or not outside
             c.expect(guarded, R, R + "/try", main.loc(outer), "cache update wrapped in try/catch", "the cache update is not wrapped in try/catch")
     rets = [x for x in jsast.walk(m) if x.get("type") == "ReturnStatement" and F.enclosing_fn(x) is m]
     c.expect(bool(rets) and all(jsast.ident_name(x.get("argument")) == resp for x in rets), R, R + "/returns-response", main.loc(m), "returns the response of super.rewrite", "the caching rewrite does not return the response of super.rewrite")
